@@ -222,7 +222,7 @@ def build_pyscf(spec):
     mol = gto.M(atom=[(a, tuple(p)) for a, p in m["atom"]], basis=m["basis"], spin=m["spin"], verbose=0)
     mf = {"rhf": scf.RHF, "rohf": scf.ROHF, "uhf": scf.UHF}[spec["mf"]](mol)
     if spec["df"]:
-        mf = mf.density_fit()
+        mf = mf.density_fit(auxbasis="weigend")        # def2-universal-jkfit: defined for every element used here
     mf.conv_tol = 1e-12
     mf.conv_tol_grad = 1e-8
     mf.max_cycle = 300
@@ -383,43 +383,48 @@ def molecule_plan(chk: Check):
     add("uccsd", "H3", spin=1, mf="uhf", cc="uccsd", trial="ucisd", walker_type="uhf", also_mf_trial="uhf", chol_cut=1e-5)
     add("df", "H4", df=True, chol_cut=1e-5)
     add("custom-basis", "H4", basis_coeff="lowdin", chol_cut=1e-5)
-    add("custom-integrals", "H4", integrals="custom", basis_coeff="eye", chol_cut=1e-6)
+    add("custom-integrals", "H4", integrals="custom", basis_coeff="mo", chol_cut=1e-6)
     if chk.tier == "quick":
         return S
     cuts = [1e-4, 1e-5, 1e-6, 1e-7]
     cut = lambda: float(rng.choice(cuts))
     bas = lambda: str(rng.choice(["sto-3g", "sto-3g", "6-31g"]))
-    wt = lambda: str(rng.choice(WALKERS))
-    for _ in range(3):
+    # walker types under which init_prop_data starts from the trial determinant itself: restricted walkers cannot
+    # represent a UHF determinant, and the cisd class implements restricted-walker kernels only
+    wt = lambda kind="rhf", trial="rhf": "uhf" if kind == "uhf" else ("rhf" if trial == "cisd" else str(rng.choice(WALKERS)))
+    max_frozen = {"LiH": 1, "H4": 1, "H6": 2, "OH": 2}        # doubly occupied and 2*n_frozen < nelectron
+    nfz = lambda m: int(rng.integers(1, max_frozen[m] + 1))
+    for _ in range(5):
         add("rhf", str(rng.choice(["H2", "H4", "H4ring", "H6", "H6ring", "LiH"])), basis=bas(), chol_cut=cut(), walker_type=wt(),
             trial=str(rng.choice(["rhf", "uhf"])))
-        add("rhf-frozen", str(rng.choice(["LiH", "H4", "H6"])), basis=bas(), nfrozen=int(rng.integers(1, 3)), chol_cut=cut(),
-            walker_type=wt())
+        m = str(rng.choice(["LiH", "H4", "H6"]))
+        add("rhf-frozen", m, basis=bas(), nfrozen=nfz(m), chol_cut=cut(), walker_type=wt())
         add("rhf-frozen", "LiH", basis=bas(), nfrozen=1, basis_coeff="core+rot", chol_cut=cut(), walker_type=wt())
         m = str(rng.choice(["OH", "H3", "H4", "LiH"]))
-        add("rohf", m, basis=bas(), spin=1 if m in ("OH", "H3") else 2, mf="rohf", trial="uhf", walker_type=wt(), chol_cut=cut())
-        add("rohf-frozen", "OH", basis=bas(), spin=1, mf="rohf", nfrozen=int(rng.integers(1, 3)), trial="uhf", walker_type=wt(),
+        add("rohf", m, basis=bas(), spin=1 if m in ("OH", "H3") else 2, mf="rohf", trial="uhf", walker_type=wt("rohf"), chol_cut=cut())
+        add("rohf-frozen", "OH", basis=bas(), spin=1, mf="rohf", nfrozen=nfz("OH"), trial="uhf", walker_type=wt("rohf"),
             chol_cut=cut())
         m = str(rng.choice(["OH", "H3", "H4", "H4ring"]))
-        add("uhf", m, basis=bas(), spin=1 if m in ("OH", "H3") else int(rng.choice([0, 2])), mf="uhf", trial="uhf", walker_type=wt(),
-            chol_cut=cut())
+        add("uhf", m, basis=bas(), spin=1 if m in ("OH", "H3") else int(rng.choice([0, 2])), mf="uhf", trial="uhf",
+            walker_type=wt("uhf"), chol_cut=cut())
         add("ccsd", str(rng.choice(["H2", "H4", "H4ring", "LiH"])), basis=bas(), cc="ccsd", trial="cisd", also_mf_trial="rhf",
-            chol_cut=cut(), walker_type=wt())
+            chol_cut=cut(), walker_type=wt("rhf", "cisd"))
         m = str(rng.choice(["LiH", "H4", "H6"]))
-        add("ccsd-frozen", m, basis="sto-3g" if m == "H6" else bas(), cc="ccsd", nfrozen=1 if m != "H6" else int(rng.integers(1, 3)),
-            trial="cisd", chol_cut=cut(), walker_type=wt())
+        add("ccsd-frozen", m, basis="sto-3g" if m == "H6" else bas(), cc="ccsd", nfrozen=nfz(m), trial="cisd", chol_cut=cut(),
+            walker_type=wt("rhf", "cisd"))
         m = str(rng.choice(["OH", "H3", "H4"]))
         add("uccsd", m, basis="sto-3g" if m == "OH" else bas(), spin=1 if m in ("OH", "H3") else int(rng.choice([0, 2])), mf="uhf",
-            cc="uccsd", trial="ucisd", walker_type=wt(), also_mf_trial="uhf", chol_cut=cut())
-        add("df", str(rng.choice(["H4", "LiH", "H6"])), basis=bas(), df=True, nfrozen=int(rng.choice([0, 0, 1])), walker_type=wt())
+            cc="uccsd", trial="ucisd", walker_type=wt("uhf"), also_mf_trial="uhf", chol_cut=cut())
+        m = str(rng.choice(["H4", "LiH", "H6"]))
+        add("df", m, basis=bas(), df=True, nfrozen=int(rng.choice([0, 0, 1])), walker_type=wt())
         m = str(rng.choice(["H4", "LiH", "OH"]))
         kind = "rhf" if m != "OH" else str(rng.choice(["rohf", "uhf"]))
         add("custom-basis", m, basis=bas(), spin=1 if m == "OH" else 0, mf=kind, trial="rhf" if kind == "rhf" else "uhf",
-            basis_coeff="lowdin", chol_cut=cut(), walker_type=wt())
+            basis_coeff="lowdin", chol_cut=cut(), walker_type=wt(kind))
         m = str(rng.choice(["H4", "H3", "LiH"]))
         kind = "rhf" if m != "H3" else str(rng.choice(["rohf", "uhf"]))
         add("custom-integrals", m, spin=1 if m == "H3" else 0, mf=kind, trial="rhf" if kind == "rhf" else "uhf", integrals="custom",
-            basis_coeff=str(rng.choice(["eye", "mo"])), chol_cut=cut(), walker_type=wt())
+            basis_coeff=str(rng.choice(["eye", "mo"])), chol_cut=cut(), walker_type=wt(kind))
     return S
 
 
@@ -486,9 +491,10 @@ def lattice_plan(chk: Check):
             mats.append(orth_columns(rng, n, rotate=True) if mf == "uhf" else mats[0])
             dets.append(mats)
         out.append({"slice": "lattice", "family": f"lattice-{mf}", "kind": kind, "dims": dims, "nelec": list(nelec), "mf": mf,
-                    "t": int(rng.choice([1, 1, 2])), "h0": float(rng.choice([0.0, -1.5, 2.25])),
+                    "t": int(rng.choice([1, 1, 2])), "h0": float(rng.choice([0.75, -1.5, 2.25])),
                     "dets": [[m.tolist() for m in pair] for pair in dets],
-                    "walker_type": str(rng.choice(WALKERS)) if mf != "uhf" or nelec[0] == nelec[1] else "uhf"})
+                    # restricted walkers cannot represent a determinant with different alpha and beta orbitals
+                    "walker_type": str(rng.choice(WALKERS)) if mf != "uhf" else "uhf"})
     return out
 
 
